@@ -10,6 +10,8 @@ def lemma_vcs():
     names = list(registry.LEMMAS)
     for i, (name, l) in enumerate(registry.LEMMAS.items()):
         earlier = set(names[:i])
+        if l.lean or l.assumed:
+            continue
         for u in l.uses:
             assert u in earlier, "lemma %s uses %s which is not defined earlier" % (name, u)
         uses = set(l.uses) | {n for n in earlier if registry.LEMMAS[n].auto}
